@@ -82,13 +82,18 @@ func vRdModelled(rd string) bool {
 	return vOr(vRdAbs.MatchString(rd), vAnd(rd != "", vRdPath.MatchString(rd)))
 }
 
-func (f *vFlow) start(tag string) *vLogin {
+func (f *vFlow) start(tag string, presented ...*http.Cookie) *vLogin {
 	rd := ndString(tag + "-rd")
 	verifAssume(vRdModelled(rd))
 	f.p.appDirector = vRdDirector{rd: rd}
 	rw := &vRW{}
 	f.prov.loginURLCalls = 0
-	f.p.doOAuthStart(rw, vFlowReq(), nil)
+	sreq := vFlowReq()
+	for _, c := range presented {
+		// what the browser still holds from a login it started earlier
+		sreq.AddCookie(&http.Cookie{Name: c.Name, Value: c.Value})
+	}
+	f.p.doOAuthStart(rw, sreq, nil)
 	verifAssert("C06.login.redirects-to-provider", rw.status == 302 && rw.Header().Get("Location") == "https://idp.example/authorize?state=x")
 	verifAssert("C03.start.one-login-url", f.prov.loginURLCalls == 1)
 	cs := verifSetCookies(rw.Header())
@@ -214,11 +219,25 @@ func vh_C03_flow_single() {
 // two outstanding logins in one browser, completed in any order
 // verif: unwind=8 strlen=8 ideal havoc=ip.GetClientString also=C05 paths=8000 steps=3000000
 func vh_C03_flow_two() {
-	f := vNewFlow("", true)
+	method := ""
+	if ndBool("pkce") {
+		method = "S256"
+	}
+	f := vNewFlow(method, true)
 	l1 := f.start("l1")
-	l2 := f.start("l2")
-	if l1.cookie == nil || l2.cookie == nil {
+	if l1.cookie == nil {
 		return
+	}
+	// the browser presents the first login's CSRF cookie when it starts the second one
+	l2 := f.start("l2", l1.cookie)
+	if l2.cookie == nil {
+		return
+	}
+	// every login gets its own state, nonce and PKCE verifier, whatever is already outstanding
+	verifAssert("C03.two.each-login-its-own-state", l1.state != l2.state)
+	verifAssert("C05.two.each-login-its-own-nonce", l1.nonceHash != l2.nonceHash)
+	if method != "" {
+		verifAssert("C05.two.each-login-its-own-pkce-challenge", l1.challenge != l2.challenge && l2.challenge != "")
 	}
 	if l1.cookie.Name == l2.cookie.Name && f.p.CookieOptions.CSRFPerRequest {
 		verifIdealOnly() // two fresh states whose hashes share the 8-character prefix
